@@ -38,13 +38,18 @@ func main() {
 		fmt.Fprintln(os.Stderr, "ENGINE-ERROR:", err)
 		os.Exit(2)
 	}
+	tmpDump := ""
 	if *dump == "" {
 		d, _ := os.MkdirTemp("", "govc-smt-")
 		*dump = d
-		defer os.RemoveAll(d)
+		tmpDump = d
 	}
 	run := &Run{eng: eng, prop: *prop, tier: *tier, out: *out, dump: *dump, only: *only, verbose: *verbose, knownFile: *known, replayDir: *replays, t0: t0, debug: *debug || *verbose, seed: seed}
-	os.Exit(run.Main())
+	rc := run.Main()
+	if tmpDump != "" {
+		os.RemoveAll(tmpDump)
+	}
+	os.Exit(rc)
 }
 
 type Run struct {
@@ -144,6 +149,10 @@ func (r *Run) Main() int {
 	if r.prop == "C08" {
 		r.eng.sweepMode = true
 		fns = r.eng.LockingFunctions()
+	}
+	if r.prop == "C09" {
+		r.eng.sweepMode = true
+		fns = r.eng.GuardedAccessFunctions("C09")
 	}
 	r.buildAndSolve(fns)
 	if !r.debug {
